@@ -52,6 +52,13 @@ def run(ctx):
                  "sym-via-locate_file:ok_cached", "sym-via-locate_file:notfound", "symfile:bad0:cut2:ok", "bodies:line-200k:ok", "bodies:plain:ok"):
         if total["classes"].get(need, 0) == 0:
             raise core.ToolFailure("vacuous: no replayed scenario of class %s" % need)
+    # scenarios in which the final move into the cache cannot succeed need a second file system (/dev/shm); without one they are skipped, not failed
+    if total["classes"].get("skipped:no-second-file-system-for-a-failing-move", 0) == 0:
+        for need in ("sym:ok_commit_failed", "move-cannot-succeed"):
+            if total["classes"].get(need, 0) == 0:
+                raise core.ToolFailure("vacuous: no replayed scenario of class %s" % need)
+    else:
+        ctx.notes.append("no second file system available: scenarios with a failing final move were skipped")
     cov = {
         "states": states, "transitions": trans, "traces_validated_against_impl": total["evaluations"], "exhaustive": True,
         "evaluations": total["evaluations"], "distinct_nontrivial": total["distinct_nontrivial"], "samples": [],
